@@ -307,6 +307,12 @@ func descCall(c *ssa.Call, depth int) string {
 	for _, a := range com.Args {
 		args = append(args, descValue(a, depth+1))
 	}
+	// a constant pattern is described in its parsed and simplified form (\d and [0-9] are one spelling)
+	if strings.HasPrefix(name, "regexp.") && len(com.Args) > 0 {
+		if s, ok := constString(com.Args[0]); ok && strings.HasPrefix(args[0], "\"") {
+			args[0] = fmt.Sprintf("%q", rxNormal(s))
+		}
+	}
 	if n, _ := stdEqualName(com.StaticCallee()); n != "" && descParamLabel != nil && len(args) >= 2 {
 		if args[0] > args[1] {
 			args[0], args[1] = args[1], args[0]
